@@ -358,11 +358,9 @@ Fixpoint osc_num (ds : list Z) (acc : Z) : Z :=
   | d :: r => let v := acc * 10 + (d - 48) in osc_num r (if 1000000 <? v then 1000000 else v)
   end.
 
-(* s = what follows ESC: "] digits ; payload terminator" or "] digits BEL" *)
+(* s = what follows ESC: "] body terminator", any body without a terminator inside *)
 Definition wf_osc (s : list Z) : Prop :=
-  exists digits payload term, forallb is_digit digits = true /\
-    ((s = 93 :: digits ++ 59 :: payload ++ term /\ osc_clean 0 payload = true /\ osc_term term) \/
-     (s = 93 :: digits ++ term /\ payload = [] /\ (term = [7] \/ term = [156]))).
+  exists body term, s = 93 :: body ++ term /\ osc_clean 0 body = true /\ osc_term term.
 
 Lemma scan_digits_app ds : forall c tail acc,
   forallb is_digit ds = true -> is_digit c = false ->
@@ -411,6 +409,78 @@ Proof.
   destruct Hb; subst; reflexivity.
 Qed.
 
+(* ---- any body ---- *)
+Lemma osc_clean_prev p1 p2 l : p1 <> 27 -> p2 <> 27 -> osc_clean p1 l = osc_clean p2 l.
+Proof.
+  intros H1 H2. destruct l as [|b r]; [reflexivity|]. cbn [osc_clean].
+  apply Z.eqb_neq in H1, H2. rewrite H1, H2. reflexivity.
+Qed.
+
+Lemma osc_clean_mid a : forall prev c b, osc_clean prev (a ++ c :: b) = true ->
+  (c =? 7) = false /\ (c =? 156) = false /\ osc_clean c b = true.
+Proof.
+  induction a as [|x a IH]; intros prev c b H; cbn [app osc_clean] in H.
+  - apply andb_prop in H. destruct H as (H & Hb). apply andb_prop in H. destruct H as (H & _).
+    apply andb_prop in H. destruct H as (H7 & H156). apply negb_true_iff in H7, H156. auto.
+  - apply andb_prop in H. destruct H as (_ & H). eapply IH, H.
+Qed.
+
+Lemma scan_str_app payload : forall prev term post,
+  osc_clean prev payload = true -> osc_term term ->
+  scan_str (payload ++ term ++ post) prev = Some post.
+Proof.
+  induction payload as [|b payload IH]; intros prev term post Hc Ht.
+  - destruct Ht as [->|[->| ->]]; cbn [app scan_str Z.eqb Pos.eqb orb]; [reflexivity|reflexivity|].
+    rewrite andb_false_r. cbn [scan_str Z.eqb Pos.eqb orb andb]. reflexivity.
+  - cbn [osc_clean] in Hc. apply andb_prop in Hc. destruct Hc as (Hc & Hrest).
+    apply andb_prop in Hc. destruct Hc as (Hc & Hpair). apply andb_prop in Hc. destruct Hc as (H7 & H156).
+    apply negb_true_iff in H7, H156, Hpair.
+    cbn [app scan_str]. rewrite H7, H156, Hpair. cbn [orb]. apply IH; assumption.
+Qed.
+
+(* the digits the tokenizer reads off the front of a body *)
+Fixpoint digit_prefix (l : list Z) : list Z :=
+  match l with b :: r => if is_digit b then b :: digit_prefix r else [] | [] => [] end.
+Fixpoint after_digits (l : list Z) : list Z :=
+  match l with b :: r => if is_digit b then after_digits r else l | [] => [] end.
+Lemma digit_split l : l = digit_prefix l ++ after_digits l /\ forallb is_digit (digit_prefix l) = true /\
+  (after_digits l = [] \/ exists c tl, after_digits l = c :: tl /\ is_digit c = false).
+Proof.
+  induction l as [|b r IH]; cbn [digit_prefix after_digits]; [repeat split; left; reflexivity|].
+  destruct (is_digit b) eqn:E.
+  - destruct IH as (A & B & C). cbn [app forallb]. rewrite E, B. rewrite <- A. repeat split. exact C.
+  - repeat split. right. exists b, r. split; [reflexivity|exact E].
+Qed.
+
+Lemma term_head_nondigit term : osc_term term -> exists c tl, term = c :: tl /\ is_digit c = false.
+Proof. intros [->|[->| ->]]; eexists; eexists; (split; [reflexivity|reflexivity]). Qed.
+
+(* every OSC string, whatever its body, is one token that ends exactly at its terminator:
+   the command token when the body is "digits" or "digits ; payload", an ignored token otherwise *)
+Theorem osc_any_consumed body term post : osc_clean 0 body = true -> osc_term term ->
+  exists k, parse_osc (body ++ term ++ post) = PTok k post /\
+    (k = TIgnore \/ exists n p, k = TOsc n p).
+Proof.
+  intros Hc Ht. destruct (digit_split body) as (E & Hd & Hrest). set (ds := digit_prefix body) in *.
+  destruct Hrest as [Hnil|(c & tl & Htl & Hcd)].
+  - (* body is all digits: the terminator follows the number *)
+    rewrite Hnil, app_nil_r in E. rewrite E. unfold parse_osc.
+    destruct Ht as [->|[->| ->]]; cbn [app].
+    + rewrite (scan_digits_app ds 7 post 0 Hd eq_refl). cbn [Z.eqb Pos.eqb orb]. eexists; split; [reflexivity|right; eauto].
+    + rewrite (scan_digits_app ds 156 post 0 Hd eq_refl). cbn [Z.eqb Pos.eqb orb]. eexists; split; [reflexivity|right; eauto].
+    + rewrite (scan_digits_app ds 27 (92 :: post) 0 Hd eq_refl). cbn [Z.eqb Pos.eqb orb scan_str andb].
+      eexists; split; [reflexivity|left; reflexivity].
+  - rewrite Htl in E. rewrite E in Hc |- *. rewrite <- app_assoc. cbn [app]. unfold parse_osc.
+    rewrite (scan_digits_app ds c (tl ++ term ++ post) 0 Hd Hcd).
+    destruct (osc_clean_mid ds 0 c tl Hc) as (H7 & H156 & Hct).
+    destruct (c =? 59) eqn:E59.
+    + apply Z.eqb_eq in E59. subst c.
+      rewrite (osc_clean_prev 59 0 tl) in Hct by lia.
+      rewrite (scan_osc_payload_app tl [] term post Hct Ht). eexists; split; [reflexivity|right; eauto].
+    + rewrite H7, H156. cbn [orb]. rewrite (scan_str_app tl c term post Hct Ht).
+      eexists; split; [reflexivity|left; reflexivity].
+Qed.
+
 (* ================= DCS ================= *)
 Fixpoint dcs_clean (prev : Z) (l : list Z) : bool :=
   match l with
@@ -454,14 +524,10 @@ Section WithOracle.
     - cbn [app]. unfold parse_esc. cbn [Z.eqb Pos.eqb].
       destruct (csi_consumed body post H) as (k & E & [->|(pr & ps & f & ->)]);
         eexists; (split; [exact E|intros ? ? ?; discriminate]).
-    - destruct H as (digits & payload & term & Hd & [(-> & Hc & Ht)|(-> & -> & Ht)]).
-      + cbn [app]. unfold parse_esc. cbn [Z.eqb Pos.eqb].
-        rewrite <- !app_assoc. cbn [app]. rewrite <- app_assoc.
-        rewrite (osc_consumed digits payload term post Hd Hc Ht).
-        eexists; (split; [reflexivity|intros ? ? ?; discriminate]).
-      + cbn [app]. unfold parse_esc. cbn [Z.eqb Pos.eqb]. rewrite <- app_assoc.
-        destruct Ht as [-> | ->]; cbn [app]; rewrite osc_short_consumed by auto;
-          eexists; (split; [reflexivity|intros ? ? ?; discriminate]).
+    - destruct H as (body & term & -> & Hc & Ht).
+      cbn [app]. unfold parse_esc. cbn [Z.eqb Pos.eqb]. rewrite <- app_assoc.
+      destruct (osc_any_consumed body term post Hc Ht) as (k & E & [->|(n & p & ->)]);
+        eexists; (split; [exact E|intros ? ? ?; discriminate]).
     - destruct H as (payload & term & -> & Hc & Ht).
       cbn [app]. unfold parse_esc. cbn [Z.eqb Pos.eqb]. rewrite <- app_assoc.
       rewrite (scan_dcs_app payload 0 term post Hc Ht).
@@ -749,11 +815,12 @@ Lemma csi_c0_refuted :
   recognised (TCsi 0 [1] 10) = false.
 Proof. vm_compute. split; reflexivity. Qed.
 
-(* an OSC whose selector is not a number ("ESC ] l title BEL", "ESC ] P..." palette)
-   is abandoned after one byte; the rest is text *)
-Lemma osc_nonnumeric_refuted :
-  parse_one F1 false [27; 93; 108; 116; 7] = PTok TIgnore [116; 7].
-Proof. vm_compute. reflexivity. Qed.
+(* an OSC whose selector is not a number ("ESC ] l title BEL"), or whose number is followed
+   directly by ST ("ESC ] 112 ESC \"), is skipped whole (it used to be abandoned after one byte) *)
+Lemma osc_nonnumeric_skipped :
+  parse_one F1 false [27; 93; 108; 116; 7; 120] = PTok TIgnore [120] /\
+  parse_one F1 false [27; 93; 49; 49; 50; 27; 92; 120] = PTok TIgnore [120].
+Proof. vm_compute. split; reflexivity. Qed.
 
 (* SOS / PM / APC strings (ESC X, ESC ^, ESC _ ... ST) are not strings for the
    tokenizer: two bytes are taken, the body is text *)
@@ -769,8 +836,12 @@ Proof.
   - exists [49; 59; 50], [32], 113. repeat split.
   - exists [49; 58; 50], [37], 71. repeat split.
 Qed.
-Example wf_osc_example : wf_osc ([93; 50; 59] ++ [104; 105; 27; 65] ++ [27; 92]).
-Proof. exists [50], [104; 105; 27; 65], [27; 92]. split; [reflexivity|]. left. repeat split. right. right. reflexivity. Qed.
+Example wf_osc_example : wf_osc (93 :: [50; 59; 104; 105; 27; 65] ++ [27; 92]) /\ wf_osc (93 :: [108; 116] ++ [7]).
+Proof.
+  split.
+  - exists [50; 59; 104; 105; 27; 65], [27; 92]. repeat split. right. right. reflexivity.
+  - exists [108; 116], [7]. repeat split. left. reflexivity.
+Qed.
 Example consumed_example :
   parse_one F1 false ([27; 91; 49; 59; 50; 32; 113] ++ [120]) = PTok TIgnore [120] /\
   parse_one F1 false ([27; 93; 50; 59; 104; 105; 27; 65; 27; 92] ++ [120]) = PTok (TOsc 2 [104; 105; 27; 65]) [120] /\
